@@ -645,7 +645,9 @@ def run(ctx):
     if th:
         images += [((9, 11), 'nonfinite'), ((15, 15), 'finite'), ((4, 3), 'finite'), ((1, 1), 'finite')]
     masks = ['none', 'block']
-    methods = [('exact', 5), ('center', 5), ('subpixel', 5), ('subpixel', 2)]
+    # subpixels is documented as ignored unless sum_method == 'subpixel' (and subpixel with 1 is
+    # the 'center' method): ('exact', 1) must still be the exact overlap
+    methods = [('exact', 5), ('center', 5), ('subpixel', 5), ('subpixel', 2), ('exact', 1), ('subpixel', 1)]
     clips = ['none', 's3', 'asym-mean', 's2-1']
     bkgs = ['none', 'scalar', 'array']
     combos = 0
